@@ -528,6 +528,42 @@ def n13_find(body, log):
         log.append("N13")
 
 
+def n18_map_stmt(body, log):
+    """N18: an `OPT.map(|P| BODY);` whose value is discarded (expression statement) ==> `if let Some(P) = OPT { BODY; }`
+    (definition of Option::map when the result is dropped)."""
+    while True:
+        m = mask(body)
+        found = None
+        for hit in re.finditer(r"\.\s*map\s*\(\s*\|", m):
+            dot = hit.start()
+            open_p = m.index("(", dot)
+            close_p = match_close(m, open_p)
+            k = skip_ws(m, close_p + 1)
+            if k < len(m) and m[k] == ";":
+                rs = _recv_start(m, dot)
+                # statement position: previous non-space char is one of ; { }
+                q = rs - 1
+                while q >= 0 and m[q].isspace():
+                    q -= 1
+                if q < 0 or m[q] in ";{}":
+                    found = (rs, dot, open_p, close_p, k)
+                    break
+        if not found:
+            return body
+        rs, dot, open_p, close_p, semi = found
+        recv = re.sub(r"\s+", "", body[rs:dot])
+        ci = skip_ws(m, open_p + 1)
+        ps, pe, bs, be = _closure_at(m, ci)
+        if skip_ws(m, be) != close_p:
+            raise Unsupported("N18: unexpected tokens after closure")
+        _forbid_control(m[bs:be], "N18")
+        param = body[ps:pe].strip()
+        cbody = body[bs:be]
+        new = "if let Some(%s) = %s { %s; }" % (param, recv, cbody)
+        body = body[:rs] + new + body[semi + 1:]
+        log.append("N18")
+
+
 def n17_unsize(body, log):
     """N17: the implicit unsizing coercion `&mut X` -> `&mut dyn IdentProvider` in the struct literal field
     `ident_provider: &mut ident_provider` is made an explicit call of the identity function `verif_unsize_provider`
@@ -556,10 +592,11 @@ RULES = {
     "N13": n13_find,
     "N14": n14_skip_cloned_collect,
     "N17": n17_unsize,
+    "N18": n18_map_stmt,
 }
 
 # order matters: N8 restructures arms first, N4 then wraps guarded blocks, then closures are inlined
-DEFAULT_ORDER = ["N8", "N4", "N1", "N2", "N14", "N10", "N12", "N13", "N3", "N5", "N17"]
+DEFAULT_ORDER = ["N8", "N4", "N18", "N1", "N2", "N14", "N10", "N12", "N13", "N3", "N5", "N17"]
 
 
 def normalise(body, rules=None):
